@@ -46,7 +46,7 @@ Fixpoint vm_store (content : node -> list node) (isman : node -> bool) (univ : l
       (TBl (vm_srt (o_blobs s)) ::
        map (fun i => TP (vm_known (predecessors_raw (o_graph s) i)) (vm_unk (predecessors_raw (o_graph s) i))) univ ++ t, ok)
   | Some o :: r =>
-      let (s', ok1) := ostep true true content isman vm_fuel s o in
+      let (s', ok1) := ostep true true true content isman vm_fuel s o in
       let (t, ok2) := vm_store content isman univ s' r in (t, ok1 && ok2)
   end.
 Definition vm_store_case (ct : amap) (mans univ : list N) (ops : list (option oop)) : list vm_tok * bool :=
@@ -126,6 +126,8 @@ def _vm_goal(case, out):
                 ops.append("Some (PGC %s)" % _vm_list([x for x in a.split(".") if x]))
             elif k == "O":
                 ops.append("Some PReopen")
+            elif k == "F":
+                ops.append("Some (PForeign %s)" % _vm_list([x for x in a.split(".") if x]))
             else:
                 return None
         return ("vm_store_case (%s)%%N (%s)%%N (%s)%%N (%s)%%N\n  = ((%s)%%N, true)"
